@@ -38,7 +38,7 @@ from typing import Union, Callable
 
 # Local imports
 from ...portref import PortRef
-from ...connect import Connectable
+from ...connect import Connectable, connected_ports
 from ...signal import Signal
 from ...bundle import (
     BundleInstance,
@@ -104,7 +104,7 @@ def update_ref_deps(ref: Union[PortRef, BundleRef], resolved: Connectable):
     """Update all downstream dependencies on a `Ref` after it has been resolved to `resolved`."""
 
     # Reconnect all connected ports
-    for connected_port in list(ref._connected_ports):
+    for connected_port in connected_ports(ref):
         connected_port.inst.replace(connected_port.portname, resolved)
 
     # Update all dependent slices and concats
